@@ -11,7 +11,8 @@ Import ListNotations.
 
 Inductive skel :=
 | KInitCp | KParafac | KHalsNnls | KNnParafacHals | KInitTucker | KTucker | KFlipSign | KPermute
-| KKhatriRaoMask | KActiveSet | KModeDotCopy | KModeDotVecInplace | KModeDotMatInplace | KP2Slices | KPlsrFit.
+| KKhatriRaoMask | KActiveSet | KModeDotCopy | KModeDotVecInplace | KModeDotMatInplace | KP2Slices | KPlsrFit
+| KCpNormalizeMethod | KTuckerNormalizeMethod.
 
 Definition skeleton (k : skel) : cmd :=
   match k with
@@ -30,6 +31,8 @@ Definition skeleton (k : skel) : cmd :=
   | KModeDotMatInplace => sk_cp_mode_dot_matrix_nocopy
   | KP2Slices => sk_parafac2_to_slices
   | KPlsrFit => sk_cp_plsr_fit
+  | KCpNormalizeMethod => sk_cp_normalize_method
+  | KTuckerNormalizeMethod => sk_tucker_normalize_method
   end.
 
 (* objects reachable from the in-place arguments (fuel = heap size suffices: each round adds the children) *)
